@@ -75,7 +75,7 @@ func genC07(t *rapid.T) c07Prog {
 		Codec:   rapid.SampledFrom(c07Codecs).Draw(t, "codec"),
 		Payload: genPayload().Draw(t, "payload"),
 		LogID:   rapid.StringMatching(`[a-zA-Z0-9/_\-é€]{1,8}`).Draw(t, "logid"),
-		Time:    rapid.OneOf(rapid.IntRange(0, 5), rapid.IntRange(0, 1<<40)).Draw(t, "time"),
+		Time:    rapid.OneOf(rapid.IntRange(0, 5), rapid.IntRange(0, 1<<40), rapid.IntRange(1<<53-2, 1<<53+8), rapid.SampledFrom([]int{1 << 24, 1<<31 - 1, 1 << 31, 1<<32 - 1, 1 << 32, 1 << 53, 1<<53 + 1, 1 << 60, 1<<62 + 12345, 1<<63 - 2}), rapid.IntRange(0, 1<<62)).Draw(t, "time"),
 		Mut:     rapid.SampledFrom(c07Muts).Draw(t, "mut"),
 		Arg:     rapid.IntRange(0, 1<<16).Draw(t, "arg"),
 		Arg2:    rapid.IntRange(0, 1<<16).Draw(t, "arg2"),
@@ -371,7 +371,7 @@ func runC07(tb ev.TB, p c07Prog) ev.Result {
 
 func TestC07(t *testing.T) {
 	c := ev.Get("C07")
-	c.Rule = "rapid generates an entry (arbitrary binary payload incl. invalid UTF-8, valid-UTF-8 log id, 0-6 predecessors and 0-6 references drawn without repetition from a CID pool, default or custom clock id, time up to 2^40, writer 0-3, default/link-key/legacy codec), creates and signs it with CreateEntryWithIO, checks it verifies, then applies one of 25 single-field mutations to a copy and requires Verify to fail. Non-trivial = the mutation touched a list of length >= 2 or the payload has a non-ASCII byte; distinct = distinct program. Payload mutations whose json.Marshal(string(payload)) equals the original's are the known finding C07/payload-json-collision: excluded and counted."
+	c.Rule = "rapid generates an entry (arbitrary binary payload incl. invalid UTF-8, valid-UTF-8 log id, 0-6 predecessors and 0-6 references drawn without repetition from a CID pool, default or custom clock id, time over the whole int range with weight on 2^24, 2^31, 2^32, 2^53 and their neighbours, writer 0-3, default/link-key/legacy codec), creates and signs it with CreateEntryWithIO, checks it verifies, then applies one of 25 single-field mutations to a copy and requires Verify to fail. Non-trivial = the mutation touched a list of length >= 2 or the payload has a non-ASCII byte; distinct = distinct program. Payload mutations whose json.Marshal(string(payload)) equals the original's are the known finding C07/payload-json-collision: excluded and counted."
 	c.Assumptions = []string{"log ids are valid UTF-8 (they are names chosen by the application)", "signing is deterministic RFC 6979 ECDSA over secp256k1 with the harness's fixed keys"}
 	ev.Check(t, "C07", genC07, runC07)
 }
